@@ -266,7 +266,67 @@ func kinds() {
 		emit("krange", itoa(int(v)))
 	}
 	emit("kinitorder", itoa(len(kInitOrder)))
+	// operands of one call: several suspending operands with order-sensitive operands between
+	// and around them, in plain, method, deferred and go calls
+	emit("kargs", kArgs(kTr("a"), yv(964, kTr("b")), kTr("c"), yv(965, kTr("d")), kTr("e")))
+	emit("kargs2", kVal{1}.args(kTr("a"), kTr("b")+yv(966, "1"), kTr("c"), kTr("d"), yv(967, kTr("e")), kTr("f")))
+	func() {
+		defer kArgsEmit(kTr("da"), yv(968, kTr("db")), kTr("dc"), yv(969, kTr("dd")), kTr("de"))
+		emit("kargs3", "body")
+	}()
+	done := make(chan bool)
+	go func(a, b, c, d string) {
+		emit("kargs4", a+b+c+d)
+		done <- true
+	}(kTr("ga"), yv(970, kTr("gb")), kTr("gc"), yv(971, kTr("gd")))
+	<-done
+	emit("kargs5", kArgs(yv(972, kTr("a")), kTr("b"), kTr("c"), yv(973, kTr("d")), yv(974, kTr("e"))))
+	ds, dn, dv := kDeferMut2()
+	emit("kdefermut", itoa(int(kDeferMut()))+ds+itoa(int(dn))+itoa(int(dv.n)))
+	kfs := []func(...string) string{kArgs}
+	emit("kargs6", kfs[yv(975, 0)](kTr("a"), yv(976, kTr("b")), kTr("c"), yv(977, kTr("d"))))
 }
+
+// results are evaluated once, before the deferred functions run (and possibly suspend)
+func kDeferMut() I {
+	x := I(1)
+	defer func() {
+		y(978)
+		x = 100
+		y(979)
+	}()
+	return x + 1
+}
+
+func kDeferMut2() (string, I, kVal) {
+	s, n, v := "a", I(5), kVal{3}
+	defer func() {
+		s = "zz"
+		n = yv(980, I(9))
+		v.n = 50
+	}()
+	if n > 0 {
+		return s + "b", n, v
+	}
+	return s, n + 1, v
+}
+
+func kTr(s string) string {
+	emit("ktr", s)
+	return s
+}
+
+func kArgs(xs ...string) string {
+	r := ""
+	for _, x := range xs {
+		r += x
+	}
+	return r
+}
+
+func kArgsEmit(xs ...string) { emit("kargsd", kArgs(xs...)) }
+
+func (v kVal) args(xs ...string) string { return kArgs(xs...) + itoa(int(v.n)) }
 `
 
 const subPkg = `package sub
